@@ -26,5 +26,11 @@ theorem element_mass_eq (mrho wwr : ℝ) (nodes : Pts ℝ) (A : ℕ → ℝ) (e 
     F.weight_element_mass (elemLength nodes e * A e) mrho wwr = elementMass mrho wwr nodes A e := by
   simp only [F.weight_element_mass, elementMass]
 
+/-- `WingboxFuelVolDelta`: the margin is the code's line applied to the (halved, for a symmetric surface) fuel and reserves -/
+theorem fuelVolDelta_eq (ny : ℕ) (sym : Bool) (vols : ℕ → ℝ) (fb rs rho : ℝ) :
+    fuelVolDelta ny sym vols fb rs rho
+      = F.fvd_delta (sumTo (ny - 1) vols) (if sym then fb / ((2 : ℕ) : ℝ) else fb) (if sym then rs / ((2 : ℕ) : ℝ) else rs) rho := by
+  simp only [fuelVolDelta, F.fvd_delta]
+
 end Formulas
 end OAS
